@@ -397,7 +397,7 @@ def same_read(a, b, tol=TOL_MS, tempo=True):
 CHART_TYPES = list(SM_KEYS)
 ROW_COUNTS = (4, 8, 12, 16, 24, 48, 192)
 BPM_POOL = ("60", "90", "120", "150", "177.5", "200", "333", "139.86013986013984", "89.999", "125.569")
-OFFSET_POOL = ("0", "0.0", "-0.5", "0.635", "1.118", "-2.25", "12.345", "0.009", "-0.000")
+OFFSET_POOL = ("0", "0.0", "-0.5", "0.635", "1.118", "-2.25", "12.345", "0.009", "-0.000", "-0.123456", "0.0004", "1.2345678")
 TEXT_POOL = (
     "",
     "Escapes",
@@ -658,6 +658,19 @@ def run_read_case(case):
                 os.unlink(path)
             if diff:
                 fails.append(("read_file_equals_read", diff))
+            # the same text saved with Windows line ends denotes the same charts
+            fd, path = tempfile.mkstemp(suffix=".sm")
+            try:
+                with os.fdopen(fd, "w", encoding="utf8", newline="") as f:
+                    f.write(text.replace("\n", "\r\n"))
+                try:
+                    diff = same_read(ms, SMMapSet.read_file(path), tol=0.0)
+                except Exception as ex:
+                    diff = f"read_file of the CRLF file raised {type(ex).__name__}: {ex}"
+            finally:
+                os.unlink(path)
+            if diff:
+                fails.append(("read_file_crlf_equals_read", diff))
     return _by_family(family, fails)
 
 
